@@ -81,3 +81,31 @@ def save_load(project, path="mem:save.json", ranks=None):
     seams.attach(new)
     seams.rerank(new, ranks or {})
     return new, ow, orr
+
+
+# ---- sub-project support (C16 / C18 / C20) ----------------------------------------------------
+def prepare_subproject(sub, seed=0):
+    """Build, simulate and save the sub-project described by ``sub`` = {"model","cfg","ranks","file"}.
+
+    Returns (project, outcome_of_simulate, outcome_of_write)."""
+    b = B.build(sub["model"], sub.get("ranks"))
+    p = b.project
+    out = None
+    if sub.get("simulate", True):
+        rec, out = simulate(p, sub["cfg"], want_snap=False)
+    ow = D.call(lambda: p.write_simple_json(sub["file"]))
+    return p, out, ow
+
+
+def configure_subtasks(built, model):
+    """Configure every BaseSubProjectTask of a built parent from its saved sub-project result."""
+    outs = []
+    for t, tj in zip(built.tasks, model["tasks"]):
+        sub = tj.get("sub")
+        if sub is None or not sub.get("configure", True):
+            continue
+        o = D.call(lambda: t.set_all_attributes_from_json(remove_absence_time_list=bool(sub.get("remove_abs", False))))
+        outs.append(o)
+        if o.ok:
+            D.call(lambda: t.set_work_amount_progress_of_unit_step_time(built.project.unit_timedelta))
+    return outs
